@@ -342,11 +342,17 @@ func C13(r *core.Run) {
 				check, github := mode&1 != 0, mode&2 != 0
 				var args []string
 				if github {
-					args = append(args, "-o", "github")
+					args = append(args, []string{"-o", "--output=github"}[a%2:][0])
+					if a%2 == 0 {
+						args = append(args, "github")
+					}
 				}
 				args = append(args, "-d", wd, "util", "renumber-tests", "--all")
+				// every spelling of the flag value
 				if check {
-					args = append(args, "--check")
+					args = append(args, []string{"--check", "-c", "--check=true", "-c=true"}[a%4])
+				} else if a%3 == 0 {
+					args = append(args, []string{"--check=false", "-c=false", "--check=0"}[a/3%3])
 				}
 				r.Inflight(fmt.Sprint(st, args))
 				res := core.RunCLI(r.Crs, wd, "", nil, args...)
